@@ -13,6 +13,32 @@ import threading
 SCRATCH_PREFIX = "/tmp/lf-builder-"
 
 
+class Hang(BaseException):
+    """an SDK call did not return within its time limit (BaseException: not swallowed by `except Exception`)"""
+
+
+class deadline:
+    """`with deadline(s):` - raises Hang inside the block when it runs longer than s seconds.  SIGALRM based (lock
+    acquires are interruptible by signals on POSIX), so only usable in the main thread of a process."""
+
+    def __init__(self, seconds):
+        self.seconds = seconds
+
+    def __enter__(self):
+        import signal
+
+        def handler(sig, frame):
+            raise Hang()
+        self.old = signal.signal(signal.SIGALRM, handler)
+        signal.setitimer(signal.ITIMER_REAL, self.seconds)
+
+    def __exit__(self, *a):
+        import signal
+        signal.setitimer(signal.ITIMER_REAL, 0)
+        signal.signal(signal.SIGALRM, self.old)
+        return False
+
+
 def scratch_dir(tag):
     return tempfile.mkdtemp(prefix=f"{SCRATCH_PREFIX}{tag}-")
 
